@@ -38,7 +38,7 @@ TRUSTED = ["harness/props/c16.py: twin construction (unit scale folded into the 
 ASSUMPTIONS = ["astropy unit registry and SkyCoord.transform_to (measured, not modelled): conversions are per-axis rescalings / frame bijections"]
 
 UNITS = {  # name -> (dimension, scale to the dimension's base as an exact rational)
-    "pix": (0, Fraction(1)),
+    "pix": (0, Fraction(1)), "mpix": (0, Fraction(1, 1000)),
     "deg": (1, Fraction(1)), "arcsec": (1, Fraction(1, 3600)), "arcmin": (1, Fraction(1, 60)), "rad": (1, Fraction(180 / math.pi)),
     "m": (2, Fraction(1)), "um": (2, Fraction(1, 10**6)), "nm": (2, Fraction(1, 10**9)), "AA": (2, Fraction(1, 10**10)),
     "Hz": (3, Fraction(1)), "GHz": (3, Fraction(10**9)), "MHz": (3, Fraction(10**6)),
@@ -46,6 +46,11 @@ UNITS = {  # name -> (dimension, scale to the dimension's base as an exact ratio
 }
 BYDIM = {1: ["deg", "arcsec", "arcmin", "rad"], 2: ["m", "um", "nm", "AA"], 3: ["Hz", "GHz", "MHz"], 4: ["s", "min", "h"]}
 REF = time.Time("2020-01-01T00:00:00")
+
+
+def _ref(case):
+    """the reference epoch of the temporal frame (UTC); one of the choices has a leap second (2016-12-31T23:59:60) right after it"""
+    return time.Time(case["epoch"]) if case.get("epoch") else REF
 SKY = {"icrs": coord.ICRS(), "fk5": coord.FK5(), "galactic": coord.Galactic(), "fk4": coord.FK4(), "fk5_1975": coord.FK5(equinox="J1975")}
 
 
@@ -60,7 +65,7 @@ def _out_frame(case):
     if fam == "spectral":
         return cf.SpectralFrame(unit=u.Unit(ax[0]["world"]), name="world")
     if fam == "temporal":
-        return cf.TemporalFrame(REF, unit=u.Unit(ax[0]["world"]), name="world")
+        return cf.TemporalFrame(_ref(case), unit=u.Unit(ax[0]["world"]), name="world")
     if fam == "generic":
         return cf.CoordinateFrame(1, ("SPATIAL",), (0,), unit=(u.Unit(ax[0]["world"]),), name="world", axes_names=("g",))
     sky = cf.CelestialFrame(reference_frame=SKY[case["sky"]], unit=(u.Unit(ax[0]["world"]), u.Unit(ax[1]["world"])), name="sky", axes_order=(0, 1))
@@ -176,7 +181,7 @@ def _objs(case, r):
             if o.frame.name != SKY[case["sky"]].name:
                 kinds[-1] += ":" + o.frame.name
         elif isinstance(o, time.Time):
-            out.append(np.asarray((o - REF).to_value(u.Unit(ax[0]["world"]))).tolist())
+            out.append(np.asarray((o - _ref(case)).to_value(u.Unit(ax[0]["world"]))).tolist())
         else:
             i = len(out)
             if o.unit != u.Unit(ax[i]["world"]):
@@ -249,7 +254,9 @@ def impl(case):
             elif case["family"] == "generic":
                 o.append(altq[0])
             else:
-                o.append(REF + altq[0])
+                t_ = _ref(case) + altq[0]
+                # the same instant on another time scale is the same world point
+                o.append(getattr(t_, case["tscale"]) if case.get("tscale") else t_)
             return o
         r["inv_obj"] = _try(lambda: _vals(w.invert(*objs())))
         r["w2p_obj"] = _try(lambda: _vals(w.world_to_pixel(*objs())))
@@ -269,6 +276,10 @@ def impl(case):
         for tag, args in (("all", [p * bad for p in pix]), ("first", [pix[0] * bad] + list(pix[1:])), ("last", list(pix[:-1]) + [pix[-1] * bad]),
                           ("right", [p * u.pix for p in pix])):
             r["pixq_" + tag] = _try(lambda: _objs(case, w.pixel_to_world(*args)))
+            if bad.is_equivalent(u.pix) and tag != "right":
+                # a unit that converts to pixels (mpix): rejected, or converted - the reference is the same call on the converted numbers
+                conv = [a_.to_value(u.pix) if isinstance(a_, u.Quantity) else a_ for a_ in args]
+                r["pixq_" + tag + "_ref"] = _try(lambda: _objs(case, w.pixel_to_world(*conv)))
         res[nm] = r
     return res
 
@@ -345,6 +356,12 @@ def oracle(case, res):
     for nm in ("q", "t"):
         for tag in ("all", "first", "last"):
             r = res[nm]["pixq_" + tag]
+            ref = res[nm].get("pixq_" + tag + "_ref")
+            if ref is not None:
+                if "err" not in r and ("err" in ref or not all(_close(a, b) for a, b in zip(r["v"], ref["v"]))):
+                    out.append(("pixunit", "pixel_to_world took a pixel quantity in %s (%s argument(s)) on the %s WCS at face value: %s, the converted pixels give %s" %
+                                (case["bad_pix_unit"], tag, nm, r["v"], ref.get("v", ref.get("msg")))))
+                continue
             if "err" not in r:
                 out.append(("pixunit", "pixel_to_world accepted a pixel quantity in %s (%s argument(s)) on the %s WCS and returned %s" %
                             (case["bad_pix_unit"], tag, nm, r["v"])))
@@ -490,7 +507,7 @@ def _gen_main(rng, tier):
     q = tier == "quick"
     for _ in range(60 if q else 1500):
         fam = rng.choice(["spectral", "spectral", "temporal", "generic", "sky", "sky", "cube", "cube", "tan"])
-        case = {"family": fam, "array": rng.random() < 0.35, "bad_pix_unit": rng.choice(["m", "deg", "arcsec", "s", "um"])}
+        case = {"family": fam, "array": rng.random() < 0.35, "bad_pix_unit": rng.choice(["m", "deg", "arcsec", "s", "um", "mpix", "mpix"])}
         if fam == "spectral":
             case["axes"] = [_axis(rng, rng.choice([2, 3]), "x")]
         elif fam == "generic":
@@ -513,6 +530,9 @@ def _gen_main(rng, tier):
             case["obj_sky"] = rng.choice(["icrs", "fk5", "galactic", "fk4", "fk5_1975"])
         if fam in ("spectral", "temporal", "generic") and rng.random() < 0.3:
             case["mixed"] = True
+        if fam == "temporal":
+            case["epoch"] = rng.choice([None, "2016-12-31T12:00:00", "1999-12-31T12:00:00"])
+            case["tscale"] = rng.choice([None, "tai", "tt", "utc"])
         if rng.random() < 0.3:
             # the WCS reached through a history (built in stages and used in between) rather than in one go
             case["staged"] = rng.choice(["insert_frame", "insert_frame", "set_transform", "insert_transform"])
